@@ -7,6 +7,7 @@ import (
 	"fmt"
 	"math/big"
 	"net/http"
+	"strings"
 
 	"github.com/thushan/olla/internal/util"
 )
@@ -149,8 +150,15 @@ func (t *Translator) convertToToolUse(toolCall map[string]interface{}) *ContentB
 	argsStr, _ := function["arguments"].(string)
 
 	// openai sends args as json string, we need it as an object
+	// (UseNumber: an integer above 2^53 keeps its value, as it does in the streamed translation)
 	var input map[string]interface{}
-	if err := json.Unmarshal([]byte(argsStr), &input); err != nil {
+	argsDecoder := json.NewDecoder(strings.NewReader(argsStr))
+	argsDecoder.UseNumber()
+	err := argsDecoder.Decode(&input)
+	if err == nil {
+		relaxExactNumbers(input)
+	}
+	if err != nil {
 		// use empty input if json is bad, don't fail the whole response
 		t.logger.Warn("Failed to parse tool arguments, using empty input",
 			"tool", name,
@@ -244,4 +252,35 @@ func encodeBase58(input []byte) string {
 	}
 
 	return string(encoded)
+}
+
+// relaxExactNumbers turns the json.Number values of a decoded document back into float64 wherever
+// float64 holds them exactly (what plain json.Unmarshal would have produced); only numbers that
+// would change their value that way - integers beyond 2^53 - stay json.Number and are written
+// out again digit for digit.
+func relaxExactNumbers(v interface{}) interface{} {
+	switch x := v.(type) {
+	case map[string]interface{}:
+		for k, e := range x {
+			x[k] = relaxExactNumbers(e)
+		}
+	case []interface{}:
+		for i, e := range x {
+			x[i] = relaxExactNumbers(e)
+		}
+	case json.Number:
+		if i, err := x.Int64(); err == nil {
+			if i > 1<<53 || i < -(1<<53) {
+				return x
+			}
+			return float64(i)
+		}
+		if !strings.ContainsAny(x.String(), ".eE") {
+			return x // an integer literal beyond int64
+		}
+		if f, err := x.Float64(); err == nil {
+			return f
+		}
+	}
+	return v
 }
